@@ -74,7 +74,7 @@ def run(ck, m):
     from nl import alias as _alias4
     ck.rule('C04.n', 'the fan-out sends every message to every member it is meant for: registration of the expected acknowledgement and send of the '
                      'registered text, per member, unconditionally (C14.d, repeated)')
-    _alias4.repeat(ck, m, 'C14', ('C14.d',), 'C04.n', floor=2, key_filter=lambda k: 'register-before-send' in k)
+    _alias4.repeat(ck, m, 'C14', ('C14.d',), 'C04.n', floor=2, key_filter=lambda k: 'register-before-send' in k or 'copy-sent-to-every-member' in k)
 
 
 def _run(ck, m):
